@@ -39,6 +39,10 @@ CLAIMS = {
         technique="TLA+ window machine for iterators (SDSIter) with Partition invariant model-checked; its complete transition cover generated by TLC and replayed on every iterator type x content x start point; random call sequences on iterators of large real objects validated by TLC",
         text="Every iterator is specified as a window [lo,hi) over a reference sequence with next/next_back/nth/nth_back/len/clone as deque operations; TLC model-checks Partition (no index twice, none skipped) and prints, for every item count 0..10 and capability class, every transition of the window graph reached by a shortest history (the VIEW hides the history), followed by a drain. The harness replays all of them on iter/one_iter/zero_iter/run_iter/select_iter/select_zero_iter/predecessor/successor of plain, sparse and run-length vectors for all contents <= 9 bits (10 thorough) and for contents spread over three words (word-crossing scans), and on IntVector/WaveletMatrix iter/into_iter/value_iter/select_iter/predecessor/successor for all vectors over {0,1,2}; exact length after every call, fused after exhaustion. Random call sequences (incl. clone and nth(huge)) on iterators of 2^17..2^19-bit vectors positioned by select_iter/predecessor/successor are validated by TLC, which computes each expected item from the abstract content.",
         design_ref="DESIGN.md section 6, C10"),
+    "C16": dict(
+        technique="TLA+ state machines of SparseBuilder and RLBuilder (SDSBuilder.BStep) with invariant BuilderOK model-checked; complete transition cover (valid and invalid calls from every reachable state) replayed on the real builders; long random histories validated by TLC",
+        text="Both builders are specified as state machines whose refused calls leave the state unchanged. TLC explores every reachable builder state for universes <= 5 (6), capacities <= 3 (4), multiset or not, and run-length builders up to length 9 (14), and prints every call from every state - try_set/set/extend with every index 0..universe+1 and a huge one, set_len/try_set with positions around the current length and zero-length runs - reached by a shortest history and followed by a completion and the conversion. The harness compares the result (ok / error / documented panic), every observable (len, capacity, universe, next_index, is_full, is_multiset, is_empty, count_ones, count_zeros) after every call, whether the conversion succeeds, and the converted vector's set bits and maximal runs. Overflow / out-of-order refusals near usize::MAX come from GenCtor. Random histories of 100-700 calls with 20% invalid calls on universes up to 2^30 are validated by TLC.",
+        design_ref="DESIGN.md section 6, C16"),
 }
 
 NOT_YET = {}
